@@ -10,6 +10,10 @@
 (* Design at the grain of the code (set_egress_amplifier): the power offset of an amplifier is the rule of the *)
 (* next span reduced so that reference power + offset stays below the amplifier's maximum, the gain closes the *)
 (* budget from the previous amplifier's output.  In gain mode the gains are the operator's and no sweep exists.*)
+(* An amplifier model with the library option out_voa_auto (AutoVoa) spends part of its head-room on its output *)
+(* VOA: the FIRST design chooses it and adds it to gain and offset alike; every later design of the same        *)
+(* amplifiers finds a VOA in force and keeps it (the offset before the VOA is rule + VOA), so the channel still  *)
+(* enters the next span at reference power + offset - VOA.                                                       *)
 (* Integer units are arbitrary (think dB).                                                                     *)
 (*                                                                                                            *)
 (* Clauses:  BudgetClosedEachStep (C09 at every sweep step), EachStepDesignedForItsPower,                      *)
@@ -20,74 +24,102 @@ EXTENDS GnpyBase, TLC
 CONSTANTS Lines,        \* set of lines: sequences of span losses
           Ranges,       \* set of power ranges: non-empty sequences of offsets (already expanded from start/stop/step)
           Modes,        \* subset of BOOLEAN: TRUE = power mode
-          SkipZero      \* deviation switch (FALSE): "do not redesign at the 0 dB step" - the model then violates its clauses
+          AutoVoas,     \* subset of BOOLEAN: TRUE = the amplifier models optimise their output VOA (power mode only)
+          SkipZero,     \* deviation switch (FALSE): "do not redesign at the 0 dB step" - the model then violates its clauses
+          StackVoa      \* deviation switch (FALSE): "every design optimises the VOA anew, on top of an offset that still
+                        \* holds the VOA in force" - idem (BudgetClosedEachStep, ResultIsFunctionOfPower, ZeroStep...)
+
+VARIABLES line, mode, avoa, range,
+          pc,            \* "loaded" "designed" "step" "redesigned" "propagated" "done"
+          k,             \* index of the current sweep step
+          pref,          \* reference offset of the current step
+          set,           \* amplifier settings in force: Seq([gain, dp, voa]); dp is the offset BEFORE the output VOA
+          designedFor,   \* ghost: the reference offset the settings in force were designed for
+          results,       \* one record per step: [dp, set, out]
+          outside        \* version of every setting that is not an amplifier of the path (other directions, other degrees
+                         \* of the crossed ROADMs, the ROADM targets themselves): the first design writes it, a sweep must not
+vars == <<line, mode, avoa, range, pc, k, pref, set, designedFor, results, outside>>
 
 RoadmOut == -20                 \* per-channel power launched by the ROADM, relative to the nominal reference power 0
 PMaxOff  == 3                   \* amplifier saturation: reference offset + power offset may not exceed this
 Rule(nextLoss) == IF nextLoss = 0 THEN 0 ELSE IF nextLoss > 24 THEN 2 ELSE IF nextLoss < 18 THEN -2 ELSE 0
 Reduce(dp, p)  == dp - MaxI(0, p + dp - PMaxOff)
 
-NextLoss(L, k) == IF k < Len(L) THEN L[k + 1] ELSE 0                  \* amplifier k faces span k + 1 (the preamp a ROADM)
-Dp(L, k, p)    == Reduce(Rule(NextLoss(L, k)), p)
-Gain(L, k, p)  == IF k = 0 THEN p + Dp(L, 0, p) - RoadmOut ELSE L[k] + Dp(L, k, p) - Dp(L, k - 1, p)
-\* settings of amplifiers 0..n designed for reference offset p (sequences are 1-based: index k + 1)
-DesignAt(L, p) == [k \in 1..(Len(L) + 1) |-> [gain |-> Gain(L, k - 1, p), dp |-> Dp(L, k - 1, p)]]
-\* reference channel power at every amplifier output when the line with settings s is propagated
-RECURSIVE OutAt(_, _, _)
-OutAt(L, s, k) == IF k = 0 THEN RoadmOut + s[1].gain ELSE OutAt(L, s, k - 1) - L[k] + s[k + 1].gain
-Outputs(L, s) == [k \in 1..(Len(L) + 1) |-> OutAt(L, s, k - 1)]
+NextLoss(L, a) == IF a < Len(L) THEN L[a + 1] ELSE 0                  \* amplifier a faces span a + 1 (the preamp a ROADM)
 
-VARIABLES line, mode, range,
-          pc,            \* "loaded" "designed" "step" "redesigned" "propagated" "done"
-          k,             \* index of the current sweep step
-          pref,          \* reference offset of the current step
-          set,           \* amplifier settings in force
-          designedFor,   \* ghost: the reference offset the settings in force were designed for
-          results,       \* one record per step: [dp, set, out]
-          outside        \* version of every setting that is not an amplifier of the path (other directions, other degrees
-                         \* of the crossed ROADMs, the ROADM targets themselves): the first design writes it, a sweep must not
-vars == <<line, mode, range, pc, k, pref, set, designedFor, results, outside>>
+\* One design of amplifiers 0..n for reference offset p, walking the line as set_egress_amplifier does.  cur = the settings
+\* in force (<<>> when the line has never been designed); prevNet = offset at which the channel enters the span in front
+\* of amplifier a, as the walk hands it on.  An output VOA in force is kept (v0); an automatic one is chosen by the design
+\* that finds none - half the head-room left at this reference power - and raises gain and offset by the same amount.
+RECURSIVE Walk(_, _, _, _, _, _, _)
+Walk(L, p, cur, a, prevNet, acc, stack) ==
+    IF a > Len(L) THEN acc
+    ELSE LET first == cur = <<>>
+             v0    == IF first THEN 0 ELSE cur[a + 1].voa
+             dp0   == Reduce(Rule(NextLoss(L, a)) + v0, p)
+             g0    == IF a = 0 THEN p + dp0 - RoadmOut ELSE L[a] + dp0 - prevNet
+             opt   == avoa /\ (first \/ stack)             \* stack: the deviation StackVoa
+             v     == IF opt THEN MaxI(0, (PMaxOff - p - dp0) \div 2) ELSE 0
+         IN Walk(L, p, cur, a + 1, dp0 - v0,
+                 Append(acc, [gain |-> g0 + v, dp |-> dp0 + v, voa |-> IF opt THEN v ELSE v0]), stack)
+DesignFrom(L, p, cur) == Walk(L, p, cur, 0, 0, <<>>, FALSE)
+\* THE design of the line for reference offset p: what a network designed (once, at the nominal power) and then
+\* designed for p carries - a function of the line and of p alone
+DesignAt(L, p) == DesignFrom(L, p, DesignFrom(L, 0, <<>>))
+\* reference channel power at every amplifier output (after its VOA) when the line with settings s is propagated
+RECURSIVE OutAt(_, _, _)
+OutAt(L, s, a) == IF a = 0 THEN RoadmOut + s[1].gain - s[1].voa ELSE OutAt(L, s, a - 1) - L[a] + s[a + 1].gain - s[a + 1].voa
+Outputs(L, s) == [a \in 1..(Len(L) + 1) |-> OutAt(L, s, a - 1)]
+
 
 \* transmission_simulation: "power cannot be changed in gain mode" -> the range collapses to <<0>>
 EffRange == IF mode THEN range ELSE <<0>>
 
 Init == /\ line \in Lines /\ mode \in Modes /\ range \in Ranges
+        /\ avoa \in {v \in AutoVoas : v => mode}                \* the output VOA is optimised in power mode only
         /\ pc = "loaded" /\ k = 0 /\ pref = 0 /\ set = <<>> /\ designedFor = NONE /\ results = <<>> /\ outside = 0
 
 Design == /\ pc = "loaded"
-          /\ set' = DesignAt(line, 0) /\ designedFor' = 0 /\ pc' = "designed" /\ outside' = 1
-          /\ UNCHANGED <<line, mode, range, k, pref, results>>
+          /\ set' = DesignFrom(line, 0, <<>>) /\ designedFor' = 0 /\ pc' = "designed" /\ outside' = 1
+          /\ UNCHANGED <<line, mode, avoa, range, k, pref, results>>
 
 StartSweep == /\ pc = "designed" /\ k' = 1 /\ pc' = "step"
-              /\ UNCHANGED <<line, mode, range, pref, set, designedFor, results, outside>>
+              /\ UNCHANGED <<line, mode, avoa, range, pref, set, designedFor, results, outside>>
 
 \* "redesign is mandatory for each power, but no need to redesign if there is no power sweep"
 Redesign == /\ pc = "step"
             /\ pref' = EffRange[k]
             /\ IF Len(EffRange) > 1 /\ ~(SkipZero /\ EffRange[k] = 0)
-               THEN set' = DesignAt(line, EffRange[k]) /\ designedFor' = EffRange[k]
+               THEN /\ set' = Walk(line, EffRange[k], set, 0, 0, <<>>, StackVoa)             \* the SAME amplifiers again:
+                    /\ designedFor' = EffRange[k]                                            \* DesignFrom(.., set)
                ELSE UNCHANGED <<set, designedFor>>
             /\ pc' = "redesigned"
-            /\ UNCHANGED <<line, mode, range, k, results, outside>>
+            /\ UNCHANGED <<line, mode, avoa, range, k, results, outside>>
 
 Propagate == /\ pc = "redesigned"
              /\ results' = Append(results, [dp |-> pref, set |-> set, out |-> Outputs(line, set)])
              /\ pc' = "propagated"
-             /\ UNCHANGED <<line, mode, range, k, pref, set, designedFor, outside>>
+             /\ UNCHANGED <<line, mode, avoa, range, k, pref, set, designedFor, outside>>
 
 NextStep == /\ pc = "propagated"
             /\ IF k < Len(EffRange) THEN k' = k + 1 /\ pc' = "step" ELSE k' = k /\ pc' = "done"
-            /\ UNCHANGED <<line, mode, range, pref, set, designedFor, results, outside>>
+            /\ UNCHANGED <<line, mode, avoa, range, pref, set, designedFor, results, outside>>
 
 Next == Design \/ StartSweep \/ Redesign \/ Propagate \/ NextStep
 Spec == Init /\ [][Next]_vars
 
 -----------------------------------------------------------------------------
 Sweeping == Len(EffRange) > 1
-\* the reference channel leaves every amplifier at (step's reference power) + (its power offset)
+\* the reference channel leaves every amplifier (after its output VOA) at (step's reference power) + (its power offset)
 BudgetClosedEachStep ==
     Sweeping => \A i \in 1..Len(results) : \A a \in 1..Len(results[i].out) :
-                    results[i].out[a] = results[i].dp + results[i].set[a].dp
+                    results[i].out[a] = results[i].dp + results[i].set[a].dp - results[i].set[a].voa
+\* an automatic output VOA never changes what enters the next span: with or without it the net offset is the rule's
+VoaInvisibleDownstream ==
+    \A i \in 1..Len(results) : \A a \in 1..Len(results[i].set) :
+        LET s == results[i].set[a] IN
+        s.voa >= 0 /\ (Sweeping => s.dp - s.voa <= Rule(NextLoss(line, a - 1)))
+                  /\ (Sweeping /\ s.dp - s.voa < Rule(NextLoss(line, a - 1)) => results[i].dp + s.dp = PMaxOff)
 EachStepDesignedForItsPower == (Sweeping /\ pc = "propagated") => designedFor = pref
 \* a step's settings and result are those of a design made for that power alone: no memory of the steps before
 ResultIsFunctionOfPower ==
